@@ -129,6 +129,31 @@ def rule_injective(ctx):
     # en-passant file is 0..8: the FEN reader produces char - 'a' for 'a'..='h' (C07.ep) and make_move copies dest.file (< 8 for generated moves)
 
 
+def iter_mut_target(b, sym, lhs, table_local):
+    """For a store `*entry = v`: the field F when `entry` is the item of `for entry in &mut table.F` (the loop visits every
+    element of the array exactly once), else None."""
+    e = sym.local(lhs["l"])
+    if not (e[0] == "field" and e[-1] == "0" and e[1][0] == "as" and e[1][2] == "Some"):
+        return None
+    nx = e[1][1]
+    if not (nx[0] == "call" and isinstance(nx[1], str) and nx[1].endswith("::next") and "IterMut" in nx[1]):
+        return None
+    it = nx[2][0]
+    for x in walk(it):
+        if isinstance(x, tuple) and x[0] == "var":
+            it = sym.expand_var(x)
+    it = mir.strip_refs(it)
+    if it[0] == "call" and it[1].endswith("::into_iter") and "IntoIterator" in it[1]:
+        it = mir.strip_refs(it[2][0])
+    elif it[0] == "call" and it[1].endswith("::iter_mut"):
+        it = mir.strip_refs(it[2][0])
+    else:
+        return None
+    if it[0] == "field" and len(it) == 3 and it[1] == ("var", b.local_name(table_local)):
+        return it[2]
+    return None
+
+
 def rule_init(ctx):
     """ZTable::init gives every table element and white_turn its own freshly drawn word."""
     ix = ctx.ix
@@ -145,10 +170,16 @@ def rule_init(ctx):
     writes = {}
     for bi, i, s in b.stmts():
         lhs = s["lhs"]
-        if lhs["l"] != tab[0] or not lhs["p"]:
+        whole = iter_mut_target(b, sym, lhs, tab[0]) if lhs["p"] == ["*"] else None
+        if whole is None and (lhs["l"] != tab[0] or not lhs["p"]):
             continue
-        fld = lhs["p"][0]["n"]
-        idx = [sym.local(e["i"]) for e in lhs["p"][1:] if isinstance(e, dict) and "i" in e]
+        if whole is not None:
+            # `for entry in &mut table.castling { *entry = .. }`: every element of that array, in order
+            fld = whole
+            idx = [("all",)]
+        else:
+            fld = lhs["p"][0]["n"]
+            idx = [sym.local(e["i"]) for e in lhs["p"][1:] if isinstance(e, dict) and "i" in e]
         p = op_place(s["rv"].get("a", {})) if s["rv"].get("k") == "use" else None
         fresh = p is not None and mir.is_local(p) and p["l"] in uses
         if fresh:
@@ -166,7 +197,7 @@ def rule_init(ctx):
     ctx.check(cols == [0, 1] and rngs == {((0, 6), (0, 64))}, "init:pieces-coverage", "pieces[0 and 1][0..6][0..64] are all assigned", b.where(0), bad_what="pieces is filled for colours %s over index ranges %s" % (cols, rngs))
     for fld, n in (("castling", 4), ("en_passant", 8)):
         w = writes.get(fld, [])
-        r = {loop_range(sym, i[0]) for _b, i, _f, _t in w if len(i) == 1}
+        r = {(0, n) if i[0] == ("all",) else loop_range(sym, i[0]) for _b, i, _f, _t in w if len(i) == 1}
         ctx.check(len(w) == 1 and r == {(0, n)}, "init:%s-coverage" % fld, "%s[0..%d] all assigned" % (fld, n), b.where(0), bad_what="%s is filled over %s" % (fld, r))
     ctx.check(len(writes.get("white_turn", [])) == 1, "init:white_turn-assigned", "white_turn is assigned", b.where(0), bad_what="white_turn is not assigned exactly once (it stays 0: side to move is not hashed)")
     seeds = [t for bi, t in b.calls() if callee_is(t, "*::seed_from_u64")]
